@@ -2,7 +2,8 @@
 The statement order of the grading methods as M-PROP / M-HIST / M-PROP∘M-CALC mirror it (C01, C02, C04; round 6).
 
 One outline per method on the execution path of `Mesh.grade`: `(nesting depth, kind, text)` per statement in source
-order (doc strings and the construction of error messages left out, `raise` with the exception class only).  These
+order (doc strings, report statements and the construction of error messages left out, `raise` with the exception class
+only, type annotations dropped, locals and parameters renamed `v0, v1, …` in order of first binding).  These
 are the outlines the model functions named in the comments were written against; `cbv/tables/c01.py` regenerates the
 same outlines from the current source with `ast` into `CBV.Gen.c01Ord…`, and `Props/C01.lean` (`T_C01_order`) proves
 them equal.  Core Lean only.
@@ -21,90 +22,90 @@ def meshGrade : Outline :=
 
 /-- BlockList.grade_blocks — `Mem.grade = gradeFrom ∘ reset`: every axis is reset before any block is graded; `gradeBlocks` folds `gradeAxis` over blocks × axes -/
 def gradeBlocks : Outline :=
-  [(0, "for", "block in self.blocks"),
-   (1, "for", "axis in block.axes"),
-   (2, "do", "axis.wires.reset()"),
-   (0, "for", "block in self.blocks"),
-   (1, "do", "block.grade()")]
+  [(0, "for", "v0 in self.blocks"),
+   (1, "for", "v1 in v0.axes"),
+   (2, "do", "v1.wires.reset()"),
+   (0, "for", "v0 in self.blocks"),
+   (1, "do", "v0.grade()")]
 
 /-- BlockList.propagate_gradings — `loop` / `pass`: work list of all blocks; a defined block is removed and the pass ends (`break`) with `updated`; otherwise `blockCopy`; no update in a whole pass ends the loop; a non-empty list raises `undefined` -/
 def propagate : Outline :=
-  [(0, "do", "undefined_blocks = set(range(len(self.blocks)))"),
-   (0, "while", "len(undefined_blocks) > 0"),
-   (1, "do", "updated = False"),
-   (1, "for", "i in undefined_blocks"),
-   (2, "do", "block = self.blocks[i]"),
-   (2, "if", "block.is_defined"),
-   (3, "do", "undefined_blocks.remove(i)"),
-   (3, "do", "updated = True"),
+  [(0, "do", "v0 = set(range(len(self.blocks)))"),
+   (0, "while", "len(v0) > 0"),
+   (1, "do", "v1 = False"),
+   (1, "for", "v2 in v0"),
+   (2, "do", "v3 = self.blocks[v2]"),
+   (2, "if", "v3.is_defined"),
+   (3, "do", "v0.remove(v2)"),
+   (3, "do", "v1 = True"),
    (3, "break", ""),
-   (2, "do", "updated = block.copy_grading() or updated"),
-   (1, "if", "not updated"),
+   (2, "do", "v1 = v3.copy_grading() or v1"),
+   (1, "if", "not v1"),
    (2, "break", ""),
-   (0, "if", "len(undefined_blocks) > 0"),
+   (0, "if", "len(v0) > 0"),
    (1, "raise", "UndefinedGradingsError")]
 
 /-- BlockList.check_consistency — `checkAll`: all blocks … -/
 def listCheck : Outline :=
-  [(0, "for", "block in self.blocks"),
-   (1, "do", "block.check_consistency()")]
+  [(0, "for", "v0 in self.blocks"),
+   (1, "do", "v0.check_consistency()")]
 
 /-- Block.grade — `gradeBlocks`: … the three axes in order -/
 def blockGrade : Outline :=
-  [(0, "for", "axis in self.axes"),
-   (1, "do", "axis.grade()")]
+  [(0, "for", "v0 in self.axes"),
+   (1, "do", "v0.grade()")]
 
 /-- Block.copy_grading — `blockCopy`: nothing for a defined block, else all three axes are tried in order (no short cut), `updated` is their disjunction -/
 def blockCopy : Outline :=
-  [(0, "do", "updated = False"),
+  [(0, "do", "v0 = False"),
    (0, "if", "not self.is_defined"),
-   (1, "for", "axis in self.axes"),
-   (2, "do", "updated = axis.copy_grading() or updated"),
-   (0, "return", "updated")]
+   (1, "for", "v1 in self.axes"),
+   (2, "do", "v0 = v1.copy_grading() or v0"),
+   (0, "return", "v0")]
 
 /-- Block.check_consistency — `checkAll`: … × three axes: `axisConsistent` -/
 def blockCheck : Outline :=
-  [(0, "for", "axis in self.axes"),
-   (1, "do", "axis.check_consistency()")]
+  [(0, "for", "v0 in self.axes"),
+   (1, "do", "v0.check_consistency()")]
 
 /-- Axis.copy_grading — `axisCopy`: defined → unchanged; the first defined neighbour in iteration order; aligned: chops in order, `copyPreserving false`; otherwise reversed, `copyPreserving true`; then `gradeAxis` -/
 def axisCopy : Outline :=
   [(0, "if", "self.is_defined"),
    (1, "return", "False"),
-   (0, "for", "neighbour in self.neighbours"),
-   (1, "if", "neighbour.is_defined"),
-   (2, "if", "neighbour.is_aligned(self)"),
-   (3, "for", "chop in neighbour.wires.chops"),
-   (4, "do", "self.wires.add_chop(chop.copy_preserving())"),
+   (0, "for", "v0 in self.neighbours"),
+   (1, "if", "v0.is_defined"),
+   (2, "if", "v0.is_aligned(self)"),
+   (3, "for", "v1 in v0.wires.chops"),
+   (4, "do", "self.wires.add_chop(v1.copy_preserving())"),
    (2, "else", ""),
-   (3, "for", "chop in reversed(neighbour.wires.chops)"),
-   (4, "do", "self.wires.add_chop(chop.copy_preserving(inverted=True))"),
+   (3, "for", "v1 in reversed(v0.wires.chops)"),
+   (4, "do", "self.wires.add_chop(v1.copy_preserving(inverted=True))"),
    (2, "do", "self.grade()"),
    (2, "return", "True"),
    (0, "return", "False")]
 
 /-- Axis.is_aligned — `axisAligned`: the first coincident wire pair in `this × other` order decides -/
 def axisAligned : Outline :=
-  [(0, "for", "this_wire in self.wires"),
-   (1, "for", "other_wire in other.wires"),
-   (2, "if", "this_wire.is_coincident(other_wire)"),
-   (3, "return", "this_wire.is_aligned(other_wire)"),
+  [(0, "for", "v0 in self.wires"),
+   (1, "for", "v1 in v2.wires"),
+   (2, "if", "v0.is_coincident(v1)"),
+   (3, "return", "v0.is_aligned(v1)"),
    (0, "raise", "RuntimeError")]
 
 /-- Axis.chop — `Mem.chop`: the first chop replaces the propagate manager, every chop is appended -/
 def axisChop : Outline :=
   [(0, "if", "not isinstance(self.wires, WireChopManager)"),
    (1, "do", "self.wires = WireChopManager(self.wires.wires)"),
-   (0, "do", "self.wires.add_chop(chop)")]
+   (0, "do", "self.wires.add_chop(v0)")]
 
 /-- WireChopManager.grade — `gradeChopped` (and `gradeAxisSpecs`, `resolved`): chops to the axis-level Grading first, then wire by wire, chop by chop, a preserving copy -/
 def chopGrade : Outline :=
   [(0, "do", "self.update()"),
-   (0, "for", "chop in self.chops"),
-   (1, "do", "self.grading.add_chop(chop)"),
-   (0, "for", "wire in self.wires"),
-   (1, "for", "chop in self.chops"),
-   (2, "do", "wire.add_chop(chop.copy_preserving())")]
+   (0, "for", "v0 in self.chops"),
+   (1, "do", "self.grading.add_chop(v0)"),
+   (0, "for", "v1 in self.wires"),
+   (1, "for", "v0 in self.chops"),
+   (2, "do", "v1.add_chop(v0.copy_preserving())")]
 
 /-- WireChopManager.reset — `Mem.reset`: wires and the axis-level Grading -/
 def chopReset : Outline :=
@@ -126,53 +127,53 @@ def propReset : Outline :=
 
 /-- WirePropagateManager.copy_neighbours — `copyWire`: every defined coincident overwrites (the last one wins), inverted when not aligned -/
 def copyNeighbours : Outline :=
-  [(0, "for", "wire in self.wires"),
-   (1, "for", "coincident in wire.coincidents"),
-   (2, "if", "coincident.grading.is_defined"),
-   (3, "if", "coincident.is_aligned(wire)"),
-   (4, "do", "wire.grading = coincident.grading"),
+  [(0, "for", "v0 in self.wires"),
+   (1, "for", "v1 in v0.coincidents"),
+   (2, "if", "v1.grading.is_defined"),
+   (3, "if", "v1.is_aligned(v0)"),
+   (4, "do", "v0.grading = v1.grading"),
    (3, "else", ""),
-   (4, "do", "wire.grading = coincident.grading.inverted")]
+   (4, "do", "v0.grading = v1.grading.inverted")]
 
 /-- WirePropagateManager.propagate_grading — `fillWire` (and `firstTrialError`): a trial Grading on the average length, then only wires without a grading get the chops -/
 def propagateGrading : Outline :=
-  [(0, "do", "grading = Grading(self.length)"),
-   (0, "for", "chop in self.chops"),
-   (1, "do", "grading.add_chop(chop)"),
-   (0, "for", "wire in self.wires"),
-   (1, "if", "not wire.grading.is_defined"),
-   (2, "for", "chop in self.chops"),
-   (3, "do", "wire.grading.add_chop(chop)")]
+  [(0, "do", "v0 = Grading(self.length)"),
+   (0, "for", "v1 in self.chops"),
+   (1, "do", "v0.add_chop(v1)"),
+   (0, "for", "v2 in self.wires"),
+   (1, "if", "not v2.grading.is_defined"),
+   (2, "for", "v1 in self.chops"),
+   (3, "do", "v2.grading.add_chop(v1)")]
 
 /-- WireManagerBase.check_consistency — `axisConsistent`: `countsEqual` first, then every wire against every coincident: exact count and `specEq` with the aligned / inverted grading -/
 def check : Outline :=
-  [(0, "do", "counts = [wire.grading.count for wire in self.wires]"),
-   (0, "if", "len(set(counts)) != 1"),
+  [(0, "do", "v0 = [v1.grading.count for v1 in self.wires]"),
+   (0, "if", "len(set(v0)) != 1"),
    (1, "raise", "InconsistentGradingsError"),
-   (0, "for", "wire in self.wires"),
-   (1, "for", "coincident in wire.coincidents"),
-   (2, "if", "coincident.is_aligned(wire)"),
-   (3, "do", "expected = coincident.grading"),
+   (0, "for", "v1 in self.wires"),
+   (1, "for", "v2 in v1.coincidents"),
+   (2, "if", "v2.is_aligned(v1)"),
+   (3, "do", "v3 = v2.grading"),
    (2, "else", ""),
-   (3, "do", "expected = coincident.grading.inverted"),
-   (2, "if", "wire.grading.count != coincident.grading.count or wire.grading != expected"),
+   (3, "do", "v3 = v2.grading.inverted"),
+   (2, "if", "v1.grading.count != v2.grading.count or v1.grading != v3"),
    (3, "raise", "InconsistentGradingsError")]
 
 /-- WireManagerBase.reset — `Mem.reset`: every wire gets an empty Grading -/
 def baseReset : Outline :=
-  [(0, "for", "wire in self.wires"),
-   (1, "do", "wire.grading = Grading(wire.length)")]
+  [(0, "for", "v0 in self.wires"),
+   (1, "do", "v0.grading = Grading(v0.length)")]
 
 /-- WireManagerBase.is_simple — `isSimple`: wires 1–3 against wire 0 -/
 def isSimple : Outline :=
-  [(0, "do", "first_grading = self.wires[0].grading"),
-   (0, "for", "wire in self.wires[1:]"),
-   (1, "if", "wire.grading != first_grading"),
+  [(0, "do", "v0 = self.wires[0].grading"),
+   (0, "for", "v1 in self.wires[1:]"),
+   (1, "if", "v1.grading != v0"),
    (2, "return", "False"),
    (0, "return", "True")]
 
 /-- WireManagerBase.length — `avgLen` (`Model/C04Chop.lean`): the sum of the four edge lengths, starting from 0, divided by 4 -/
 def length : Outline :=
-  [(0, "return", "sum((wire.edge.length for wire in self.wires)) / 4")]
+  [(0, "return", "sum((v0.edge.length for v0 in self.wires)) / 4")]
 
 end CBV.Prop.Order
